@@ -65,6 +65,7 @@ func (c *Collection) Snapshot(dst io.Writer) error {
 
 	// Take a snapshot of the current state
 	defer os.Remove(recorder.Name())
+	defer c.recorderDiscard(recorder)
 	if _, err := c.writeState(s2.NewWriter(dst)); err != nil {
 		return err
 	}
@@ -80,6 +81,8 @@ func (c *Collection) recorderOpen() (log *commit.Log, err error) {
 		dst := (*unsafe.Pointer)(unsafe.Pointer(&c.record))
 		ptr := unsafe.Pointer(log)
 		if !atomic.CompareAndSwapPointer(dst, nil, ptr) {
+			log.Close()
+			os.Remove(log.Name())
 			return nil, fmt.Errorf("column: unable to snapshot, another one might be in progress")
 		}
 	}
@@ -92,6 +95,14 @@ func (c *Collection) recorderClose() {
 		dst := (*unsafe.Pointer)(unsafe.Pointer(&c.record))
 		atomic.StorePointer(dst, nil)
 	}
+}
+
+// recorderDiscard detaches the recorder if it is still attached (a snapshot that
+// failed half-way never reached recorderClose) and closes its temporary file.
+func (c *Collection) recorderDiscard(log *commit.Log) {
+	dst := (*unsafe.Pointer)(unsafe.Pointer(&c.record))
+	atomic.CompareAndSwapPointer(dst, unsafe.Pointer(log), nil)
+	log.Close()
 }
 
 // isSnapshotting loads a currently used commit log for a pending snapshot
